@@ -29,6 +29,26 @@ CLAIMED = {
             "Every build transition of the bounded exploration (dimensions 1-3, explicit/automatic tree counts changing between rounds, several capacities): reader-visible tree count, non-empty default-budget search, bucket capacity bound when the capacity was constant.",
             "Trusted: LMDB/heed, roaring, rayon.",
             "DESIGN.md §3 C15"),
+    "C05": ("model_checking", "E1-transaction-explorer",
+            "explicit-state BFS over histories with real LMDB transactions (each transition replays its history from an empty environment), observation against a BTreeMap model after every action",
+            "All histories up to the stated depth over add/append/overwrite/delete/clear/build/commit/abort on two indexes with a value-rich vector alphabet (NaN payloads, -0.0, subnormals, infinities at word boundaries): after every action the whole read API is compared with the model, in the write transaction and from a fresh read transaction after commit.",
+            "Trusted: LMDB/heed transactions, roaring, rayon. Bounds: 3 ids, 2-6 vectors, depth 4-6.",
+            "DESIGN.md §3 C05"),
+    "C06": ("model_checking", "E1-transaction-explorer",
+            "explicit-state BFS over histories with real commits/aborts; open / need_build verdicts compared with a (built, stale) model after every action",
+            "All histories up to depth 6-7 over every mutator kind (including rejected and no-op calls, a cancelled build, commit, abort) on two indexes: Reader::open and need_build must follow the model after every single action, in-transaction and from a fresh read transaction.",
+            "Trusted: LMDB/heed transactions, roaring, rayon.",
+            "DESIGN.md §3 C06"),
+    "C07": ("model_checking", "E1-transaction-explorer",
+            "explicit-state BFS over all interleavings of operations on index pairs/triples at the u16 boundaries; byte comparison of the other indexes' raw sub-dumps around every action",
+            "Every interleaving (depth 5) of add/append/delete/clear/build/metric-change on index pairs drawn from {0,1,255,256,257,65534,65535} with ids at the u32 edges; after each action the raw dump restricted to every other index must be byte-identical.",
+            "Trusted: LMDB/heed, roaring, rayon.",
+            "DESIGN.md §3 C07"),
+    "C19": ("model_checking", "E1-transaction-explorer",
+            "explicit-state BFS over histories; at every state an enumerated battery of must-be-rejected calls, each in a nested transaction, with error value and raw-dump comparison",
+            "At every state of a depth-5/6 exploration on two indexes: wrong-length add/append/search, appends around the maximum key of the whole database, deletes of absent ids; exact error values, byte-identical dump after each rejected call, accepted append = add.",
+            "Trusted: LMDB/heed (nested transactions), roaring, rayon.",
+            "DESIGN.md §3 C19"),
 }
 
 NOT_YET = "check not built yet in this session; see DESIGN.md §3 for the planned exploration"
@@ -64,8 +84,11 @@ def main():
         },
         "engines": [
             {"name": "E1-history-explorer", "path": "/verif/harness/src/explore.rs",
-             "serves_properties": [p for p in ALL if p in CLAIMED and CLAIMED[p][1].startswith("E1")],
+             "serves_properties": [p for p in ALL if p in CLAIMED and CLAIMED[p][1] == "E1-history-explorer"],
              "kind_free_text": "explicit-state breadth-first search; the transition function is the real arroy API executed in forked workers on private LMDB environments; states deduplicated on the exact raw dump + reference model"},
+            {"name": "E1-transaction-explorer", "path": "/verif/harness/src/txnsys.rs",
+             "serves_properties": [p for p in ALL if p in CLAIMED and CLAIMED[p][1] == "E1-transaction-explorer"],
+             "kind_free_text": "the same breadth-first explorer over histories with real begin/commit/abort; every transition replays its whole history from an empty environment"},
         ],
         "checks": checks,
         "notes": "Exit codes: 0 held, 1 VIOLATION, 2 machinery error (no verdict). Known findings: /verif/known_findings.jsonl.",
